@@ -21,7 +21,8 @@ type Op struct {
 	Always bool  `json:"always,omitempty"`
 	Dry    bool  `json:"dry,omitempty"`
 	Child  bool  `json:"child,omitempty"`
-	Fail   []int `json:"fail,omitempty"` // target selectors whose bodies fail during this build
+	Watch  bool  `json:"watch,omitempty"` // build on the history's long-lived Project: Reload + Run, as watch mode does
+	Fail   []int `json:"fail,omitempty"`  // target selectors whose bodies fail during this build
 	Index  bool  `json:"index,omitempty"`
 	// Crash names a crash point: the build runs in a child process that dies at the CrashHit-th
 	// time (from 1) any target reaches it.
@@ -317,6 +318,45 @@ func (s *Sim) ApplyEdit(op Op) EditInfo {
 		k := op.I % len(t.Deps)
 		t.Deps = append(t.Deps[:k:k], t.Deps[k+1:]...)
 		info.Semantic, info.Affected, info.Applied = true, []int{id}, true
+	case "ord-add", "ord-del":
+		// an ordering-only dependency: declared in deps=, not read by the body (so the function's
+		// code does not change with it)
+		if op.Kind == "ord-del" {
+			ids := m.liveWhere(func(t *Target) bool { return len(t.OrdDeps) > 0 })
+			id := pick(ids, op.T)
+			if id < 0 {
+				return info
+			}
+			t := &m.Targets[id]
+			k := op.I % len(t.OrdDeps)
+			t.OrdDeps = append(t.OrdDeps[:k:k], t.OrdDeps[k+1:]...)
+			info.Semantic, info.Affected, info.Applied = true, []int{id}, true
+			break
+		}
+		id := pick(all, op.T)
+		if id <= 0 {
+			return info
+		}
+		var cands []int
+		for _, o := range all {
+			if o < id {
+				has := false
+				for _, d := range m.DirectDeps(id) {
+					if d == o {
+						has = true
+					}
+				}
+				if !has {
+					cands = append(cands, o)
+				}
+			}
+		}
+		d := pick(cands, op.I)
+		if d < 0 {
+			return info
+		}
+		m.Targets[id].OrdDeps = append(m.Targets[id].OrdDeps, d)
+		info.Semantic, info.Affected, info.Applied = true, []int{id}, true
 	case "src-add":
 		id := pick(all, op.T)
 		if id < 0 {
@@ -462,6 +502,19 @@ func GenModel(t *rapid.T, maxTargets int, emit bool) *Model {
 				}
 			}
 		}
+		if id > 1 && rapid.IntRange(0, 4).Draw(t, "orddep") == 4 {
+			// an ordering-only dependency
+			d := rapid.IntRange(0, id-1).Draw(t, "ordd")
+			dup := false
+			for _, e := range tg.Deps {
+				if e == d {
+					dup = true
+				}
+			}
+			if !dup {
+				tg.OrdDeps = []int{d}
+			}
+		}
 		tg.DepForm = rapid.IntRange(0, 2).Draw(t, "depform")
 		ns := rapid.SampledFrom([]int{1, 0, 2, 1}).Draw(t, "nsrc")
 		for j := 0; j < ns; j++ {
@@ -511,7 +564,7 @@ func GenModel(t *rapid.T, maxTargets int, emit bool) *Model {
 			tg.Default = true
 			hasDefault[tg.Pkg] = true
 		}
-		tg.Body = rapid.SampledFrom([]int{0, 1, 2, 3, 4, 5, 6, 7, 8, 9, 5, 9}).Draw(t, "body")
+		tg.Body = rapid.SampledFrom([]int{0, 1, 2, 3, 4, 5, 6, 7, 8, 9, 5, 9, 10}).Draw(t, "body")
 		if tg.Body == 7 && tg.Pkg != 0 {
 			tg.Body = 1 // the flag template lives in the root package only
 		}
@@ -530,7 +583,7 @@ var longPrefix = strings.Repeat("shared prefix 0123456789 ", 8)
 
 var contentPool = []string{"one\n", "two\n", longPrefix + "A\n", "three", longPrefix + "B\n", "", "one\n", longPrefix + "A\n", "one\ntwo\n", longPrefix + "C"}
 
-var semanticEdits = []string{"src-rm", "src-new", "const", "body", "helper-const", "helper-code", "dir-add", "dir-del", "dir-rename", "dir-edit", "dep-add", "dep-del", "src-add", "src-del", "gen-del", "flag", "src-revert", "const", "src-new"}
+var semanticEdits = []string{"src-rm", "src-new", "const", "body", "helper-const", "helper-code", "dir-add", "dir-del", "dir-rename", "dir-edit", "dep-add", "dep-del", "ord-add", "ord-del", "ord-add", "src-add", "src-del", "gen-del", "flag", "src-revert", "const", "src-new"}
 var noopEdits = []string{"src-same", "src-recreate", "comment", "blank", "doc", "unrelated-src", "dir-recreate"}
 
 // GenEdit draws an edit op of the given class list.
